@@ -29,6 +29,10 @@ def run(ctx: core.Ctx) -> None:
             if r['reject'] == 'none' and {'**', '/'} <= {tk['s'] for tk in r['stmts'][0]['rhs'] if tk['t'] == 'bin'}]
     rng.shuffle(pow3)
     chosen += pow3[: (400 if quick else 2000)]
+    negpow = [r for r in sc.emit_layer(ctx, 'fortran_negpow')
+              if r['reject'] == 'none' and any(tk['t'] == 'neg' for tk in r['stmts'][0]['rhs']) and any(tk['s'] == '**' for tk in r['stmts'][0]['rhs'])]
+    rng.shuffle(negpow)
+    chosen += negpow[: (400 if quick else 2000)]
     sim = [r for r in sc.simulate_layer(ctx, 'fortran_sim', 400 if quick else 6000) if r['reject'] == 'none']
     chosen += sim[: (80 if quick else 1500)]
     progs = sc.compose_long([r for r in accepted[:400]], ctx.seed, 40 if quick else 600)
